@@ -20,7 +20,7 @@ PROP = {
     "assumptions": [],
 }
 
-KINDS_BAD = ["wrong-len", "wrong-len0", "none", "int", "str", "ndarray", "foreign-track", "list"]
+KINDS_BAD = ["wrong-len", "wrong-len0", "wrong-len1", "wrong-len-double", "none", "int", "str", "ndarray", "foreign-track", "list"]
 
 
 def make_track(t, n, label="t", seed=0):
@@ -70,6 +70,10 @@ class Interp:
         if kind == "wrong-len0":
             m = self.n - 1 if self.n > 1 else self.n + 1
             return make_track(self.t, m, "w", self.counter), False
+        if kind == "wrong-len1":   # exactly one frame (broadcastable) into a block of another length
+            return make_track(self.t, 1 if self.n != 1 else 2, "w1", self.counter), False
+        if kind == "wrong-len-double":
+            return make_track(self.t, self.n * 2, "w2", self.counter), False
         if kind == "foreign-track":
             other = {"data3D": "emg", "force3D": "data3D", "emg": "force3D"}[self.t]
             return make_track(other, self.n, "f", self.counter), False
